@@ -146,6 +146,86 @@ Theorem c19_parse_local_map :
 Proof. exact parseM_local_map. Qed.
 
 
+(* ---- the emit-time LOCAL maps: for every emitted function the recorded map is the numbering computed by emit_locals (a bijection onto
+   [0, n) fixing the parameters and preserving types); a lookup gives the position among params-then-declared-locals; for parsed modules
+   no side condition is left (parameters are distinct) *)
+From Coq Require Import List NArith ZArith Bool Arith Lia Permutation.
+Import ListNotations.
+From WV Require Import Gen.Ops Model.Common Model.IR Model.Arena Model.Traversal Model.EmitFn Model.Locals
+                       Model.ParseFn Model.ModuleM Model.ParseM Model.EmitM Gen.Attrs.
+From WV Require Import Proofs.Arena Proofs.Order Proofs.IndexMaps Proofs.Names Proofs.Totality Proofs.TotalityBodies
+                       Proofs.CustomsCfg Proofs.Locals2 Proofs.Structure Proofs.ParsedWf Proofs.Structure2
+                       Proofs.Renumbering Proofs.Locals3.
+From WV Require Import Proofs.Sigs2.
+Theorem c19_emit_local_map_is_numbering :
+  forall (m : wir) (ilen : wins -> N) (dw : list wsec) (e : emitted),
+         emitM m ilen dw = Ok e ->
+         exists fs : list (N * mlocalfunc),
+           used_local_functions m = Ok fs /\
+           Forall2 (fn_lmap_spec m) fs (em_fns e) /\
+           xi_locals (em_x2i e) = map (fun ef : emitted_fn => (ef_id ef, ef_lmap ef)) (em_fns e) /\
+           map fst (xi_locals (em_x2i e)) = map fst fs /\
+           (forall (id : N) (lf : mlocalfunc),
+            In (id, lf) fs -> exists f : mfunc, In (id, f) (aiter (m_funcs m)) /\ fn_kind f = FK_Local lf).
+Proof. exact emit_local_map_is_numbering. Qed.
+
+Theorem c19_emit_local_map_lookup_is_position :
+  forall (m : wir) (p : N * mlocalfunc) (ef : emitted_fn),
+         fn_lmap_spec m p ef ->
+         exists evs : list ev,
+           lf_log (snd p) = Ok evs /\
+           (let ty := local_ty_fn m in
+            let args := lf_args (snd p) in
+            let order := locals_order ty args (used_of_log evs) in
+            firstn (length args) order = args /\
+            map ty order = map ty args ++ expand (wb_locals (ef_body ef)) /\
+            length (ef_lmap ef) = length order /\
+            (forall l j : N, lookup l (ef_lmap ef) = Some j -> nth_error order (N.to_nat j) = Some l) /\
+            (NoDup args ->
+             forall (l : N) (k : nat), nth_error order k = Some l -> lookup l (ef_lmap ef) = Some (N.of_nat k))).
+Proof. exact emit_local_map_lookup_is_position. Qed.
+
+Theorem c19_parsed_local_maps_bijective :
+  forall (cf : config) (ver : nstr) (w : wmod) (s : pst) (ilen : wins -> N) 
+           (dw : list wsec) (e : emitted),
+         parseM cf ver w = POk s ->
+         emitM (ps_m s) ilen dw = Ok e ->
+         forall ef : emitted_fn,
+         In ef (em_fns e) ->
+         exists (f : mfunc) (lf : mlocalfunc) (evs : list ev),
+           In (ef_id ef, f) (aiter (m_funcs (ps_m s))) /\
+           fn_kind f = FK_Local lf /\
+           lf_log lf = Ok evs /\
+           NoDup (lf_args lf) /\
+           (let ty := local_ty_fn (ps_m s) in
+            let args := lf_args lf in
+            let used := used_of_log evs in
+            let lmap := ef_lmap ef in
+            let order := locals_order ty args used in
+            let tys := map ty args ++ expand (wb_locals (ef_body ef)) in
+            lmap = snd (emit_locals ty args used) /\
+            wb_locals (ef_body ef) = fst (emit_locals ty args used) /\
+            map ty order = tys /\
+            length lmap = length tys /\
+            (forall (l : N) (k : nat), lookup l lmap = Some (N.of_nat k) <-> nth_error order k = Some l) /\
+            (forall l : N,
+             In l args \/ In l used -> exists j : N, lookup l lmap = Some j /\ (j < N.of_nat (length tys))%N) /\
+            (forall l j : N, lookup l lmap = Some j -> In l args \/ In l used) /\
+            (forall l1 l2 j : N, lookup l1 lmap = Some j -> lookup l2 lmap = Some j -> l1 = l2) /\
+            (forall j : N,
+             (j < N.of_nat (length tys))%N -> exists l : N, (In l args \/ In l used) /\ lookup l lmap = Some j) /\
+            (forall (k : nat) (a : N), nth_error args k = Some a -> lookup a lmap = Some (N.of_nat k)) /\
+            (forall l j : N, lookup l lmap = Some j -> nth_error tys (N.to_nat j) = Some (ty l))).
+Proof. exact parsed_local_maps_bijective. Qed.
+
+Theorem c19_parsed_args_distinct :
+  forall (cf : config) (ver : nstr) (w : wmod) (s : pst),
+         parseM cf ver w = POk s ->
+         forall (id : N) (f : mfunc) (lf : mlocalfunc),
+         aget (m_funcs (ps_m s)) id = Some f -> fn_kind f = FK_Local lf -> NoDup (lf_args lf).
+Proof. exact parsed_args_NoDup. Qed.
+
+
 Print Assumptions c19_parse_ids_are_positions.
 Print Assumptions c19_parse_types.
 Print Assumptions c19_parse_tables.
@@ -164,3 +244,7 @@ Print Assumptions c19_sec_imports.
 Print Assumptions c19_sec_tables.
 Print Assumptions c19_sec_memories.
 Print Assumptions c19_parse_local_map.
+Print Assumptions c19_emit_local_map_is_numbering.
+Print Assumptions c19_emit_local_map_lookup_is_position.
+Print Assumptions c19_parsed_local_maps_bijective.
+Print Assumptions c19_parsed_args_distinct.
